@@ -678,6 +678,8 @@ class NAHooks(Hooks):
         v = value.a if isinstance(value, NA) else (
             objarr(value) if isinstance(value, (list, tuple, SArr))
             else value)
+        if isinstance(v, _np.ndarray) and v.ndim == 0:
+            v = v[()]
         try:
             if isinstance(v, _np.ndarray):
                 target.a[conv_index(idx)] = v
